@@ -202,7 +202,7 @@ def real_obs_code(o):
 
 def real_snap(s):
     return [s["taken"], s["n_disp"], s["n_comp"], s["njobs"], int(s["iterating"]), int(s["aborting"]),
-            s["nready"], int(s["running"])]
+            s["nready"], int(s["running"]), int(s.get("exception", False))]
 
 
 def compare(run, model):
@@ -225,7 +225,7 @@ def compare(run, model):
             return {"kind": "late" if late else "obs", "index": k, "event": ev, "real": robs, "model": m["obs"]}
         if real_snap(rs) != m["snap"]:
             return {"kind": "snap", "index": k, "event": ev, "real": real_snap(rs), "model": m["snap"],
-                    "fields": "taken n_disp n_comp njobs iterating aborting nready running"}
+                    "fields": "taken n_disp n_comp njobs iterating aborting nready running exception"}
         if rs["submitted"] != m["submitted"]:
             return {"kind": "submitted", "index": k, "event": ev, "real": rs["submitted"], "model": m["submitted"]}
     return None
